@@ -129,6 +129,8 @@ def proc(rng, spec, name, up, cgrid=GRID):
         d['valadd'] = rng.choice([1, 2.5])
     if rng.random() < 0.15:
         d['rvaladd'] = rng.choice([0.5, 1])
+    if rng.random() < 0.12:
+        d['wear'] = rng.choice([0.5, 1])      # cycle_time getter overridden: slower at certain times
     return d
 
 
